@@ -10,6 +10,7 @@ import (
 	"github.com/mimiro-io/datahub/internal/server"
 	"github.com/mimiro-io/datahub/internal/service/store"
 	"github.com/mimiro-io/datahub/internal/service/types"
+	"github.com/mimiro-io/datahub/internal/verifhook"
 	"go.uber.org/zap"
 )
 
@@ -157,6 +158,7 @@ func flushDeletes(bs store.BadgerStore, ops *compactionInstruction, finalFlush b
 	if !finalFlush && len(ops.DeleteKeys) < strategy.flushThreshold() {
 		return false, nil
 	}
+	verifhook.Point("compact.beforeFlush", "")
 	err := bs.GetDB().Update(func(txn *badger.Txn) error {
 		bufferedKeys, err := strategy.flush(txn)
 		if err != nil {
@@ -190,6 +192,7 @@ func flushDeletes(bs store.BadgerStore, ops *compactionInstruction, finalFlush b
 	if err != nil {
 		return false, err
 	}
+	verifhook.Point("compact.afterFlush", "")
 	return true, nil
 }
 
